@@ -1,9 +1,297 @@
 /-
-  C17 — text/number codecs (placeholder while the proofs are being written)
+  C17 — Text/number codecs are exact, total and respect buffer bounds
+  (src/microhttpd/mhd_str.c, configured build: MHD_FAVOR_FAST_CODE).
+
+  Statements only; proofs are in `Mhd.Proofs.Str*`.  Conventions of the model
+  (`Mhd.Model.Str*`): a C input `(ptr, len)` is a byte list whose length is the
+  stated length — reading at an index ≥ that length is the fault `read`; an
+  output buffer is a byte list of the stated size — writing at an index ≥ that
+  size is the fault `write`; a loop that does not terminate is the fault `fuel`.
+  Every theorem of the form `f … = .ok …` / `Wrote (f …) …` / `∃ r, f … = .ok r ∧ …`
+  therefore contains "no read beyond the stated input length, no write beyond
+  the stated output size, terminates" for **all** inputs of any length.
+
+  `Wrote res out (some d)` : normal return, buffer size unchanged, return value
+  `= d.length`, first bytes of the buffer `= d`;  `Wrote res out none` : normal
+  return, buffer size unchanged, return value 0.
+
+  The model follows the code with build/fixes/F12, F17a, F17b, F17c, F17d applied.
 -/
-import Mhd.Model.Str
-import Mhd.Model.StrCodec
-import Mhd.Model.StrToken
+import Mhd.Proofs.StrNum
+import Mhd.Proofs.StrPrint
+import Mhd.Proofs.StrHex
+import Mhd.Proofs.StrPct
+import Mhd.Proofs.StrQuote
+import Mhd.Proofs.StrB64
+import Mhd.Proofs.StrCmp
+import Mhd.Proofs.StrCompose
 
 namespace Mhd.C17
+open Mhd.Str
+
+/-! ## Decimal and hexadecimal parsing (∀ input strings) -/
+
+/-- `MHD_str_to_uint64_n_`: consumes the maximal run of decimal digits; fails (0) iff
+    the run is empty or its value exceeds `UINT64_MAX`; never reads beyond `len`. -/
+theorem strToUint64N_exact (s : Bytes) : strToUint64N s = .ok (parseDec s) :=
+  strToUint64N_spec s
+
+/-- `MHD_str_to_uint64_` on any buffer that contains a NUL: same result, never reads
+    past the terminator. -/
+theorem strToUint64_exact (s : Bytes) (hz : 0 ∈ s) : strToUint64 s = .ok (parseDec s) :=
+  strToUint64_spec s hz
+
+/-- overflow / no-digit detection characterised exactly -/
+theorem parseDec_zero_iff (s : Bytes) :
+    (parseDec s).1 = 0 ↔ digitRun s = [] ∨ decVal (digitRun s) > 2 ^ 64 - 1 := by
+  unfold parseDec parseResult
+  have h : u64Max = 2 ^ 64 - 1 := by decide
+  rw [h]
+  by_cases hc : digitRun s = [] ∨ decVal (digitRun s) > 2 ^ 64 - 1
+  · simp [hc]
+  · simp only [hc, if_false, iff_false]
+    intro h0
+    have : digitRun s = [] := List.eq_nil_of_length_eq_zero h0
+    exact hc (Or.inl this)
+
+theorem strxToUint32N_exact (s : Bytes) : strxToUint32N s = .ok (parseHex (2 ^ 32 - 1) s) :=
+  strxToUintN_spec _ s
+theorem strxToUint64N_exact (s : Bytes) : strxToUint64N s = .ok (parseHex (2 ^ 64 - 1) s) :=
+  strxToUintN_spec _ s
+theorem strxToUint32_exact (s : Bytes) (hz : 0 ∈ s) : strxToUint32 s = .ok (parseHex (2 ^ 32 - 1) s) :=
+  strxToUint_spec _ s hz
+theorem strxToUint64_exact (s : Bytes) (hz : 0 ∈ s) : strxToUint64 s = .ok (parseHex (2 ^ 64 - 1) s) :=
+  strxToUint_spec _ s hz
+
+theorem parseHex_zero_iff (max : Nat) (s : Bytes) :
+    (parseHex max s).1 = 0 ↔ xdigitRun s = [] ∨ hexVal (xdigitRun s) > max := by
+  unfold parseHex parseResult
+  by_cases hc : xdigitRun s = [] ∨ hexVal (xdigitRun s) > max
+  · simp [hc]
+  · simp only [hc, if_false, iff_false]
+    intro h0
+    exact hc (Or.inl (List.eq_nil_of_length_eq_zero h0))
+
+example : strToUint64N [0x31, 0x38, 0x20] = .ok (2, 18) := rfl
+example : strxToUint32 [0x66, 0x46, 0x67, 0] = .ok (2, 255) := rfl
+/-- 2^64 = "18446744073709551616" overflows, 2^64 - 1 = "18446744073709551615" does not -/
+example : strToUint64N [0x31, 0x38, 0x34, 0x34, 0x36, 0x37, 0x34, 0x34, 0x30, 0x37, 0x33, 0x37, 0x30, 0x39, 0x35, 0x35, 0x31, 0x36, 0x31, 0x36] = .ok (0, 0) := rfl
+example : strToUint64N [0x31, 0x38, 0x34, 0x34, 0x36, 0x37, 0x34, 0x34, 0x30, 0x37, 0x33, 0x37, 0x30, 0x39, 0x35, 0x35, 0x31, 0x36, 0x31, 0x35] = .ok (20, 2 ^ 64 - 1) := rfl
+
+/-! ## Decimal printing (∀ values, ∀ buffer sizes) and print ∘ parse -/
+
+/-- `MHD_uint64_to_str`: writes the canonical decimal representation (`k+1` digits with
+    `10^k ≤ val < 10^(k+1)`, or the single digit for `val < 10`) iff the buffer has
+    at least `k+1` bytes, and returns 0 iff it is shorter. -/
+theorem uint64ToStr_exact (val : Nat) (out : Bytes) (hv : val ≤ 2 ^ 64 - 1) :
+    ∃ k, (k = 0 ∨ 10 ^ k ≤ val) ∧ val < 10 ^ (k + 1) ∧
+      Wrote (uint64ToStr val out) out (if k + 1 ≤ out.length then some (decDigits k val) else none) :=
+  uint64ToStr_spec val out (by have : u64Max = 2 ^ 64 - 1 := by decide
+                               omega)
+
+theorem uint16ToStr_exact (val : Nat) (out : Bytes) (hv : val < 65536) :
+    ∃ k, (k = 0 ∨ 10 ^ k ≤ val) ∧ val < 10 ^ (k + 1) ∧
+      Wrote (uint16ToStr val out) out (if k + 1 ≤ out.length then some (decDigits k val) else none) :=
+  uint16ToStr_spec val out hv
+
+/-- the digits printed are the value: `decVal (decDigits k v) = v` -/
+theorem decDigits_value (k v : Nat) (hv : v < 10 ^ (k + 1)) : decVal (decDigits k v) = v :=
+  decVal_decDigits k v hv
+
+/-- `MHD_str_to_uint64_n_ ∘ MHD_uint64_to_str = id`; the printer reports 0 exactly when
+    the buffer is shorter than the number of digits. -/
+theorem print_parse_roundtrip (val : Nat) (out : Bytes) (hv : val ≤ 2 ^ 64 - 1) :
+    ∃ n o, uint64ToStr val out = .ok (n, o) ∧
+      (n ≠ 0 → strToUint64N (o.take n) = .ok (n, val)) ∧
+      (n = 0 ↔ ∀ k, val < 10 ^ (k + 1) → out.length < k + 1) :=
+  strToUint64N_uint64ToStr val out (by have : u64Max = 2 ^ 64 - 1 := by decide
+                                       omega)
+
+example : uint64ToStr 1234 (List.replicate 4 0) = .ok (4, [0x31, 0x32, 0x33, 0x34]) := rfl
+example : uint64ToStr 1234 (List.replicate 3 0) = .ok (0, [0x31, 0x32, 0x33]) := rfl
+
+/-! ## Hexadecimal ↔ binary -/
+
+theorem binToHex_exact (bin out : Bytes) (hsz : 2 * bin.length ≤ out.length) :
+    Wrote (binToHex bin out) out (some (hexSpec bin)) := binToHex_spec bin out hsz
+
+theorem hexToBin_exact (hex out : Bytes) (hsz : (hex.length + 1) / 2 ≤ out.length) :
+    Wrote (hexToBin hex out) out (hexToBinSpec hex) := hexToBin_spec hex out hsz
+
+/-- `MHD_hex_to_bin ∘ MHD_bin_to_hex = id` -/
+theorem hexToBin_binToHex (b out1 out2 : Bytes) (h1 : 2 * b.length ≤ out1.length) (h2 : b.length ≤ out2.length) :
+    ∃ n o n' o', binToHex b out1 = .ok (n, o) ∧ n = 2 * b.length ∧
+      hexToBin (o.take n) out2 = .ok (n', o') ∧ n' = b.length ∧ o'.take n' = b :=
+  Mhd.Str.hexToBin_binToHex b out1 out2 h1 h2
+
+example : binToHex [0x00, 0xff, 0x1a] (List.replicate 6 0) = .ok (6, [0x30, 0x30, 0x66, 0x66, 0x31, 0x61]) := rfl
+
+/-! ## Percent-decoding -/
+
+/-- `MHD_str_pct_decode_strict_n_` = the strict reference decoder; 0 iff the input is
+    broken or empty or the result does not fit into `buf_size` -/
+theorem pctDecodeStrictN_exact (s out : Bytes) :
+    Wrote (pctDecodeStrictN s out) out ((pctStrict s).filter (fitsIn out.length)) :=
+  pctDecodeStrictN_spec s out
+
+/-- `MHD_str_pct_decode_lenient_n_` = the lenient reference decoder with its flag -/
+theorem pctDecodeLenientN_exact (s out : Bytes) :
+    ∃ r, pctDecodeLenientN s out = .ok r ∧ r.2.1.length = out.length ∧
+      if (pctLenient s).1.length ≤ out.length then
+        r.1 = (pctLenient s).1.length ∧ r.2.1.take r.1 = (pctLenient s).1 ∧ r.2.2 = (pctLenient s).2
+      else r.1 = 0 := by
+  obtain ⟨r, h1, h2, h3⟩ := pctDecodeLenientN_spec s out
+  exact ⟨r, h1, h2, h3⟩
+
+/-- in place, on any buffer `c ++ NUL :: tail` with `c` free of NUL -/
+theorem pctDecodeInPlaceStrict_exact (c tail : Bytes) (hz : ∀ x ∈ c, x ≠ 0) :
+    ∃ r, pctDecodeInPlaceStrict (c ++ 0 :: tail) = .ok r ∧ r.2.length = c.length + 1 + tail.length ∧
+      match pctStrict c with
+      | some d => r.1 = d.length ∧ r.2.take r.1 = d ∧ r.2[r.1]? = some 0
+      | none => r.1 = 0 ∧ r.2[0]? = some 0 := by
+  obtain ⟨r, h1, h2, h3⟩ := pctDecodeInPlaceStrict_spec c tail hz
+  exact ⟨r, h1, h2, h3⟩
+
+theorem pctDecodeInPlaceLenient_exact (c tail : Bytes) (hz : ∀ x ∈ c, x ≠ 0) :
+    ∃ r, pctDecodeInPlaceLenient (c ++ 0 :: tail) = .ok r ∧ r.2.1.length = c.length + 1 + tail.length ∧
+      r.1 = (pctLenient c).1.length ∧ r.2.1.take r.1 = (pctLenient c).1 ∧ r.2.1[r.1]? = some 0 ∧
+      r.2.2 = (pctLenient c).2 := by
+  obtain ⟨r, h1, h2, h3, h4, h5, h6⟩ := pctDecodeInPlaceLenient_spec c tail hz
+  exact ⟨r, h1, h2, h3, h4, h5, h6⟩
+
+/-- in place = copying (strict) -/
+theorem inPlaceStrict_eq_copying (c tail out : Bytes) (hz : ∀ x ∈ c, x ≠ 0) (hsz : c.length ≤ out.length) :
+    ∃ n b o, pctDecodeInPlaceStrict (c ++ 0 :: tail) = .ok (n, b) ∧ pctDecodeStrictN c out = .ok (n, o) ∧
+      b.take n = o.take n := Mhd.Str.inPlaceStrict_eq_copying c tail out hz hsz
+
+/-- in place = copying (lenient, including the flag) -/
+theorem inPlaceLenient_eq_copying (c tail out : Bytes) (hz : ∀ x ∈ c, x ≠ 0) (hsz : c.length ≤ out.length) :
+    ∃ n b o br, pctDecodeInPlaceLenient (c ++ 0 :: tail) = .ok (n, b, br) ∧
+      pctDecodeLenientN c out = .ok (n, o, br) ∧ b.take n = o.take n :=
+  Mhd.Str.inPlaceLenient_eq_copying c tail out hz hsz
+
+/-- the lenient decoder extends the strict one -/
+theorem lenient_extends_strict (s d : Bytes) (h : pctStrict s = some d) : pctLenient s = (d, false) :=
+  pctLenient_of_strict s d h
+
+/-- every buffer with a NUL has the form `c ++ 0 :: tail` used above -/
+theorem zstring_decompose (b : Bytes) (h : 0 ∈ b) : ∃ c tail, b = c ++ 0 :: tail ∧ ∀ x ∈ c, x ≠ 0 :=
+  exists_cstr b h
+
+/-- "a%41%" : strict fails, lenient gives "aA%" and the flag; trailing "%4" is not over-read (F12) -/
+example : pctStrict [0x61, 0x25, 0x34, 0x31] = some [0x61, 0x41] ∧
+          pctLenient [0x61, 0x25, 0x34, 0x31, 0x25] = ([0x61, 0x41, 0x25], true) := by decide
+example : pctDecodeStrictN [0x25, 0x34] [0, 0] = .ok (0, [0, 0]) := rfl
+/-- "%%41" decodes to "%A" both ways (F17a) -/
+example : pctDecodeInPlaceLenient [0x25, 0x25, 0x34, 0x31, 0] = .ok (2, [0x25, 0x41, 0, 0x31, 0], true) := rfl
+example : pctDecodeLenientN [0x25, 0x25, 0x34, 0x31] [0, 0, 0, 0] = .ok (2, [0x25, 0x41, 0, 0], true) := rfl
+
+/-! ## Quoted strings -/
+
+/-- `MHD_str_unquote` (result buffer of the documented size) -/
+theorem unquote_exact (q out : Bytes) (hsz : q.length ≤ out.length) :
+    Wrote (unquote q out) out (unquoteSpec q) := unquote_spec q out hsz
+
+/-- `MHD_str_quote`: the quoted form iff it fits, 0 otherwise -/
+theorem quote_exact (u out : Bytes) (hu : u.length < 2 ^ 63) :
+    Wrote (quote u out) out (if (quoteSpec u).length ≤ out.length then some (quoteSpec u) else none) :=
+  quote_spec u out hu
+
+/-- unquote ∘ quote = id (reference level and model level) -/
+theorem unquoteSpec_quoteSpec (s : Bytes) : unquoteSpec (quoteSpec s) = some s := unquote_quote s
+
+theorem unquote_quote_model (u out1 out2 : Bytes) (hu : u.length < 2 ^ 63)
+    (h1 : (quoteSpec u).length ≤ out1.length) (h2 : (quoteSpec u).length ≤ out2.length) :
+    ∃ n o n' o', quote u out1 = .ok (n, o) ∧ n = (quoteSpec u).length ∧
+      unquote (o.take n) out2 = .ok (n', o') ∧ n' = u.length ∧ o'.take n' = u :=
+  Mhd.Str.unquote_quote_model u out1 out2 hu h1 h2
+
+/-- `MHD_str_equal_quoted_bin_n (q, u)` ⇔ `unquote q = u` -/
+theorem equalQuoted_iff (q u : Bytes) : equalQuotedBinN q u = .ok (decide (unquoteSpec q = some u)) :=
+  equalQuotedBinN_spec q u
+
+/-- `MHD_str_equal_caseless_quoted_bin_n (q, u)` ⇔ `unquote q` exists and equals `u` caselessly -/
+theorem equalCaselessQuoted_exact (q u : Bytes) :
+    equalCaselessQuotedBinN q u = .ok (match unquoteSpec q with
+                                       | some u' => listEq charsEqualCaseless u' u
+                                       | none => false) :=
+  equalQuotedGen_spec charsEqualCaseless q u
+
+example : quoteSpec [0x61, 0x22, 0x5c] = [0x61, 0x5c, 0x22, 0x5c, 0x5c] ∧
+          unquoteSpec [0x61, 0x5c] = none := by decide
+example : equalCaselessQuotedBinN [0x5c, 0x41, 0x62] [0x61, 0x42] = .ok true := rfl
+
+/-! ## Base64 -/
+
+/-- `MHD_base64_to_bin_n` = RFC 4648 decoder (mandatory canonical padding) iff the data
+    fits; 0 for invalid/empty input or a too small buffer -/
+theorem base64ToBinN_exact (s out : Bytes) :
+    Wrote (base64ToBinN s out) out ((b64Spec s).filter (fitsIn out.length)) :=
+  base64ToBinN_spec s out
+
+/-- "QUI=" is "AB"; "QUJ=" (non-zero trailing bits) and "QU==" … are rejected/accepted canonically -/
+example : b64Spec [0x51, 0x55, 0x49, 0x3d] = some [0x41, 0x42] ∧ b64Spec [0x51, 0x55, 0x4a, 0x3d] = none ∧
+          b64Spec [0x51, 0x51, 0x3d, 0x3d] = some [0x41] ∧ b64Spec [0x51, 0x52, 0x3d, 0x3d] = none := by decide
+example : base64ToBinN [0x51, 0x55, 0x4a, 0x44] [0, 0, 0] = .ok (3, [0x41, 0x42, 0x43]) := rfl
+
+/-! ## Caseless comparison -/
+
+/-- `charsequalcaseless` ⇔ equal after US-ASCII lower-casing (all 65 536 pairs) -/
+theorem charsEqualCaseless_lower (a b : UInt8) : charsEqualCaseless a b = (toLower a == toLower b) :=
+  charsEqualCaseless_iff a b
+
+theorem equalCaselessBinN_exact (a b : Bytes) (h : a.length = b.length) :
+    equalCaselessBinN a b a.length = .ok (listEq charsEqualCaseless a b) :=
+  equalCaselessBinN_spec a b h
+
+/-- `MHD_str_equal_caseless_` on two z-terminated buffers -/
+theorem equalCaseless_exact (ca ta cb tb : Bytes) (hza : ∀ x ∈ ca, x ≠ 0) (hzb : ∀ x ∈ cb, x ≠ 0) :
+    equalCaseless (ca ++ 0 :: ta) (cb ++ 0 :: tb) = .ok (listEq charsEqualCaseless ca cb) :=
+  equalCaseless_spec ca ta cb tb hza hzb
+
+example : equalCaseless [0x41, 0x62, 0] [0x61, 0x42, 0, 0x7a] = .ok true := rfl
+
+/-! ## No fault, for all inputs (corollaries, stated per function) -/
+
+theorem nofault_parse (s : Bytes) :
+    NoFault (strToUint64N s) ∧ NoFault (strxToUint32N s) ∧ NoFault (strxToUint64N s) ∧
+    (0 ∈ s → NoFault (strToUint64 s) ∧ NoFault (strxToUint32 s) ∧ NoFault (strxToUint64 s)) :=
+  ⟨⟨_, strToUint64N_spec s⟩, ⟨_, strxToUintN_spec _ s⟩, ⟨_, strxToUintN_spec _ s⟩,
+   fun hz => ⟨⟨_, strToUint64_spec s hz⟩, ⟨_, strxToUint_spec _ s hz⟩, ⟨_, strxToUint_spec _ s hz⟩⟩⟩
+
+theorem nofault_print (val : Nat) (out : Bytes) :
+    (val ≤ 2 ^ 64 - 1 → NoFault (uint64ToStr val out)) ∧ (val < 65536 → NoFault (uint16ToStr val out)) := by
+  constructor
+  · intro hv; obtain ⟨_, _, _, h⟩ := uint64ToStr_exact val out hv; exact h.noFault
+  · intro hv; obtain ⟨_, _, _, h⟩ := uint16ToStr_exact val out hv; exact h.noFault
+
+theorem nofault_codecs (s out : Bytes) :
+    NoFault (pctDecodeStrictN s out) ∧ NoFault (pctDecodeLenientN s out) ∧ NoFault (base64ToBinN s out) ∧
+    (s.length < 2 ^ 63 → NoFault (quote s out)) ∧
+    (s.length ≤ out.length → NoFault (unquote s out)) ∧
+    (2 * s.length ≤ out.length → NoFault (binToHex s out)) ∧
+    ((s.length + 1) / 2 ≤ out.length → NoFault (hexToBin s out)) := by
+  refine ⟨(pctDecodeStrictN_spec s out).noFault, ?_, (base64ToBinN_spec s out).noFault,
+    fun h => (quote_spec s out h).noFault, fun h => (unquote_spec s out h).noFault,
+    fun h => (binToHex_spec s out h).noFault, fun h => (hexToBin_spec s out h).noFault⟩
+  obtain ⟨r, h, _⟩ := pctDecodeLenientN_spec s out; exact ⟨r, h⟩
+
+theorem nofault_inplace (b : Bytes) (hz : 0 ∈ b) :
+    NoFault (pctDecodeInPlaceStrict b) ∧ NoFault (pctDecodeInPlaceLenient b) := by
+  obtain ⟨c, tail, rfl, hc⟩ := exists_cstr b hz
+  obtain ⟨r1, h1, _⟩ := pctDecodeInPlaceStrict_spec c tail hc
+  obtain ⟨r2, h2, _⟩ := pctDecodeInPlaceLenient_spec c tail hc
+  exact ⟨⟨r1, h1⟩, ⟨r2, h2⟩⟩
+
+theorem nofault_compare (q u : Bytes) :
+    NoFault (equalQuotedBinN q u) ∧ NoFault (equalCaselessQuotedBinN q u) ∧
+    (q.length = u.length → NoFault (equalCaselessBinN q u q.length)) ∧
+    (0 ∈ q → 0 ∈ u → NoFault (equalCaseless q u)) := by
+  refine ⟨⟨_, equalQuotedBinN_spec q u⟩, ⟨_, equalQuotedGen_spec _ q u⟩,
+    fun h => ⟨_, equalCaselessBinN_spec q u h⟩, ?_⟩
+  intro hq hu
+  obtain ⟨ca, ta, rfl, hca⟩ := exists_cstr q hq
+  obtain ⟨cb, tb, rfl, hcb⟩ := exists_cstr u hu
+  exact ⟨_, equalCaseless_spec ca ta cb tb hca hcb⟩
+
 end Mhd.C17
